@@ -324,11 +324,30 @@ fn hash_of<T: Hash + ?Sized>(t: &T) -> u64 {
     h.finish()
 }
 
+/// serde deserializers that hand the visitor raw bytes: borrowed (`visit_bytes`) or as an owned
+/// buffer (`visit_byte_buf`) -- what a binary format does for a string it cannot validate itself
+struct RawBytes<'a>(&'a [u8], bool);
+impl<'de, 'a> serde::Deserializer<'de> for RawBytes<'a> {
+    type Error = serde::de::value::Error;
+    fn deserialize_any<V: serde::de::Visitor<'de>>(self, v: V) -> Result<V::Value, Self::Error> {
+        if self.1 {
+            v.visit_byte_buf(self.0.to_vec())
+        } else {
+            v.visit_bytes(self.0)
+        }
+    }
+    serde::forward_to_deserialize_any! {
+        bool i8 i16 i32 i64 i128 u8 u16 u32 u64 u128 f32 f64 char str string bytes byte_buf option unit
+        unit_struct newtype_struct seq tuple tuple_struct map struct enum identifier ignored_any
+    }
+}
+
 pub fn run(a: &Args) {
     let mut rng = Rng::new(a.seed ^ 0xB17E5);
     let mut cases = Cases::new();
     let gb = cases.group("bytes_cases", "list (step_t * obs)");
     let gu = cases.group("utf8_cases", "list N * bool * N * bool * bool");
+    let gd = cases.group("de_cases", "list N * N * N * N");
     let mut bad: Vec<String> = vec![];
     let mut paths: BTreeMap<&'static str, u64> = BTreeMap::new();
     let mut ops: BTreeMap<&'static str, u64> = BTreeMap::new();
@@ -368,6 +387,41 @@ pub fn run(a: &Args) {
         let coq = format!("({}, {}, {}, {}, {})", nlist(b), cbool(std_ok), upto, cbool(ours_ok), cbool(same));
         let json = format!("{{\"bytes\": {}, \"std_accepts\": {}, \"valid_up_to\": {}, \"shared_string_accepts\": {}}}", jstr(&format!("{:02x?}", b)), std_ok, upto, ours_ok);
         cases.push_nt(gu, coq, json, b.len() >= 2);
+        // deserialization from raw bytes: SharedString accepts exactly the well-formed strings and
+        // then holds those bytes; SharedBytes takes anything and holds it (code 0 = refused,
+        // 1 = accepted with exactly these bytes, 2 = accepted with other bytes)
+        {
+            use serde::Deserialize;
+            let code_s = |owned: bool| -> u8 {
+                match ledger::traced(|| SharedString::deserialize(RawBytes(b, owned))) {
+                    Ok(s) => {
+                        let bytes: &[u8] = s.as_ref();
+                        let r = if bytes == &b[..] { 1 } else { 2 };
+                        ledger::traced(move || drop(s));
+                        r
+                    }
+                    Err(_) => 0,
+                }
+            };
+            let (s_borrowed, s_owned) = (code_s(false), code_s(true));
+            let code_b = |owned: bool| -> u8 {
+                match ledger::traced(|| SharedBytes::deserialize(RawBytes(b, owned))) {
+                    Ok(s) => {
+                        let r = if &s[..] == &b[..] { 1 } else { 2 };
+                        ledger::traced(move || drop(s));
+                        r
+                    }
+                    Err(_) => 0,
+                }
+            };
+            let b_code = if code_b(false) == 1 && code_b(true) == 1 { 1 } else { 0 };
+            cases.push_nt(
+                gd,
+                format!("({}, {}, {}, {})", nlist(b), s_borrowed, s_owned, b_code),
+                format!("{{\"bytes\": {}, \"SharedString::deserialize(visit_bytes)\": {}, \"SharedString::deserialize(visit_byte_buf)\": {}, \"SharedBytes::deserialize\": {}}}", jstr(&format!("{:02x?}", b)), s_borrowed, s_owned, b_code),
+                b.len() >= 2,
+            );
+        }
         // the infallible constructors take text: what they hold is that text
         if let Ok(t) = std_r {
             for s in [SharedString::from(t), SharedString::from(t.to_string()), SharedString::from(Cow::Borrowed(t)), SharedString::from(Cow::<str>::Owned(t.to_string()))] {
@@ -527,12 +581,12 @@ pub fn run(a: &Args) {
         &a.out,
         "bytesdiff",
         "From AM Require Import Ref.Bytes Corr.BytesCheck.",
-        &[("bytes_cases", "bytes_check_code"), ("utf8_cases", "utf8_check_code")],
+        &[("bytes_cases", "bytes_check_code"), ("utf8_cases", "utf8_check_code"), ("de_cases", "de_check_code")],
     );
     std::fs::write(
         format!("{}/bytesdiff.summary.json", a.out),
         format!(
-            "{{\"engine\": \"bytesdiff\", \"explain\": {{\"bytes_cases\": \"bytes_explain\", \"utf8_cases\": \"utf8_explain\"}}, \"evaluations\": {}, \"distinct_nontrivial\": {}, \"samples\": {}, \"distribution\": {{\"constructor_paths\": {}, \"ops\": {}, \"utf8_inputs\": {}, \"utf8_accepted\": {}, \"comparisons\": {}, \"storm_rounds\": {}, \"simultaneous_last_drops\": {}}}}}",
+            "{{\"engine\": \"bytesdiff\", \"explain\": {{\"bytes_cases\": \"bytes_explain\", \"utf8_cases\": \"utf8_explain\", \"de_cases\": \"de_explain\"}}, \"evaluations\": {}, \"distinct_nontrivial\": {}, \"samples\": {}, \"distribution\": {{\"constructor_paths\": {}, \"ops\": {}, \"utf8_inputs\": {}, \"utf8_accepted\": {}, \"comparisons\": {}, \"storm_rounds\": {}, \"simultaneous_last_drops\": {}}}}}",
             cases.total() as u64 + cmp_evals + rounds as u64 + pairs as u64,
             cases.distinct_nontrivial(),
             cases.samples_json(),
